@@ -63,6 +63,9 @@ Definition api (ask : string -> list val -> val) : list api_entry :=
   (* ---- C13: BIP-38 with the P2PKH address and UTF-8 inside the model *)
   ("bip38c_address", fun a => match a with [p; VN c] =>
       Ok (VB (LinkAddr.bip38_p2pkh sha256 rip pt k1_ser_c k1_ser_u (Api_serbip.pt_of p) (vbool c))) | _ => bad_call end);
+  (* Bip38Addr.AddressHash(pub, mode) *)
+  ("bip38c_address_hash", fun a => match a with [p; VN c] =>
+      Ok (VB (LinkAddr.bip38c_address_hash sha256 rip pt k1_ser_c k1_ser_u (Api_serbip.pt_of p) (vbool c))) | _ => bad_call end);
   ("bip38c_noec_encrypt", fun a => match a with [VB key; VB pass; VN c] =>
       rb (LinkAddr.bip38c_noec_encrypt sha256 rip nfc scrypt aes_enc pt k1_base k1_smul k1_ser_c k1_ser_u key pass (vbool c))
       | _ => bad_call end);
